@@ -44,6 +44,7 @@ func Features(g *d2graph.Graph, op Op) []string {
 	}
 	objFeat := func(o *d2graph.Object, pre string) {
 		decl := 0
+		plain := 0
 		for _, r := range o.References {
 			if r.Key == nil || r.MapKey == nil {
 				continue
@@ -63,6 +64,9 @@ func Features(g *d2graph.Graph, op Op) []string {
 			}
 			if r.KeyPathIndex == nonReserved(r.Key)-1 {
 				decl++
+				if len(r.Key.Path) == nonReserved(r.Key) {
+					plain++
+				}
 				if nonReserved(r.Key) >= 2 && len(r.Key.Path) == nonReserved(r.Key) {
 					if r.MapKey.Primary.Unbox() != nil || (r.MapKey.Value.Unbox() != nil && r.MapKey.Value.Map == nil) {
 						add(pre + "flat-primary")
@@ -88,6 +92,9 @@ func Features(g *d2graph.Graph, op Op) []string {
 		}
 		if decl == 0 {
 			add(pre + "implicit")
+		}
+		if decl > 0 && plain == 0 {
+			add(pre + "attr-only") // exists only through keys that set one of its attributes (`x.style.fill: red`)
 		}
 		if o.ID != o.IDVal {
 			add(pre + "quoted")
@@ -216,7 +223,7 @@ func Features(g *d2graph.Graph, op Op) []string {
 				if o, ok := x.Parent.HasChild([]string{ch.ID}); ok && o != x && o != x.Parent {
 					add("child-name-taken-in-parent")
 					for _, ch2 := range x.ChildrenArray {
-						if ch2 != ch && strings.HasPrefix(strings.ToLower(ch2.IDVal), strings.ToLower(ch.IDVal)+" ") {
+						if ch2 != ch && strings.EqualFold(baseName(ch2.IDVal), baseName(ch.IDVal)) {
 							add("clashing-child-has-numbered-sibling")
 						}
 					}
@@ -275,6 +282,23 @@ func Features(g *d2graph.Graph, op Op) []string {
 		}
 	}
 	return sortedKeys(set)
+}
+
+// baseName strips a trailing " <n>" (the suffix generateUniqueKey appends)
+func baseName(s string) string {
+	i := strings.LastIndex(s, " ")
+	if i <= 0 {
+		return s
+	}
+	for _, c := range s[i+1:] {
+		if c < '0' || c > '9' {
+			return s
+		}
+	}
+	if i+1 == len(s) {
+		return s
+	}
+	return s[:i]
 }
 
 func sortedKeys(m map[string]bool) []string {
